@@ -6,6 +6,7 @@ CONSTANTS
   AcqBarrier = TRUE
   NotLeaderPanics = TRUE
   ApplyRefuses = TRUE
+  QueueGroup = TRUE
   MaxReq = 0
   MaxTransfers = 2
   MaxCancels = 0
